@@ -603,6 +603,15 @@ theorem observed_height_has_quorum (b : State) (powers : List Nat) (total : Nat)
     rw [hpw, htot] at this
     omega
 
+/-- a claim that does not complete a quorum (and one that is rejected) leaves the whole C05 state as it is — observed
+heights, event nonce, pool, batches, bridge calls, balances: the Lean side of the monitor clause "a vote without a quorum
+changes nothing" -/
+theorem vote_without_quorum_changes_nothing (s : VState) (o n h : Nat) (ev : Ev)
+    (hq : (voteCore FxVerif.Gen.C06.claimHashFields s o n h ev).2.2 = none) : (vote s o n h ev).1.base = s.base := by
+  have := voteCore_base FxVerif.Gen.C06.claimHashFields s o n h ev
+  rw [hq] at this
+  exact this
+
 /-- **a vote releases something only by completing a quorum, at the voter's height, by the release rules** (every
 state of the voted system, every vote): if a batch leaves the store at a vote, that vote completed a quorum — one
 observation `⟨n, h, ev, voters⟩` was logged, with the height and the event of this very claim — and the batch's timeout is
@@ -711,6 +720,43 @@ example : ∃ ops : List VOp,
   refine ⟨[.vote 0 1 1000 .other, .vote 1 1 1000 .other, .vote 2 1 1000 .other,
            .base (.send 0 "0x0000000000000000000000000000000000000001" 0 5 2),
            .base (.reqBatch 0 1 0 "0x0000000000000000000000000000000000000002")], ?_⟩
+  decide
+
+/-- non-vacuity of `vote_without_quorum_changes_nothing`: the first of three oracles votes -/
+example : (voteCore FxVerif.Gen.C06.claimHashFields (vinit (init 1 [((0, 0), 100)] {}) [400, 300, 300] 1000) 0 1 100 .other).2.2 = none := by
+  decide
+
+/-- `released_means_no_longer_executable` for voted histories (the property's last sentence with the votes inside): from
+an initial state, for any oracle set and any list of user operations and single votes whose resulting observations are
+ones the bridge contract can have produced (`AdmissibleRun` of the trace), whatever fxcore has released can no longer be
+executed on the external chain by any further admissible event -/
+theorem released_means_no_longer_executable_voted (b0 : State) (h0 : IsInit b0) (powers : List Nat) (total : Nat)
+    (ops : List VOp) (ha : AdmissibleRun b0 {} (trace (vinit b0 powers total) ops)) :
+    let s := (vrun (vinit b0 powers total) ops).base
+    let x := (runExt b0 {} (trace (vinit b0 powers total) ops)).2
+    (∀ b ∈ x.created, b ∉ s.batches → ∀ h, ¬ admissible x (.observe h (.batch b.token b.nonce))) ∧
+    (∀ c ∈ x.createdCalls, c ∉ s.calls → ∀ h ok, ¬ admissible x (.observe h (.result c.nonce ok))) := by
+  intro s x
+  have hs : s = run b0 (trace (vinit b0 powers total) ops) := voted_history_is_a_history b0 powers total ops
+  rw [hs]
+  exact released_means_no_longer_executable b0 h0 _ ha
+
+/-- non-vacuity: the trace of an honest voted history (three oracles reporting the same claims) is an admissible run -/
+example : AdmissibleRun (init 1 [((0, 0), 100)] {}) {}
+    (trace (vinit (init 1 [((0, 0), 100)] {}) [400, 300, 300] 1000)
+      [.vote 0 1 1000 .other, .vote 1 1 1000 .other, .vote 2 1 1000 .other,
+       .base (.send 0 "0x0000000000000000000000000000000000000001" 0 5 2),
+       .base (.reqBatch 0 1 0 "0x0000000000000000000000000000000000000002"),
+       .vote 0 2 3000 (.batch 0 1), .vote 2 2 3000 (.batch 0 1)]) := by
+  have ht : trace (vinit (init 1 [((0, 0), 100)] {}) [400, 300, 300] 1000)
+      [.vote 0 1 1000 .other, .vote 1 1 1000 .other, .vote 2 1 1000 .other,
+       .base (.send 0 "0x0000000000000000000000000000000000000001" 0 5 2),
+       .base (.reqBatch 0 1 0 "0x0000000000000000000000000000000000000002"),
+       .vote 0 2 3000 (.batch 0 1), .vote 2 2 3000 (.batch 0 1)] =
+      [.observe 1000 .other, .send 0 "0x0000000000000000000000000000000000000001" 0 5 2,
+       .reqBatch 0 1 0 "0x0000000000000000000000000000000000000002", .observe 3000 (.batch 0 1)] := by rfl
+  rw [ht]
+  simp only [AdmissibleRun, admissible]
   decide
 
 /-- non-vacuity: three oracles (400 / 300 / 300 of 1000), one of them reports a far higher height; the event is observed
